@@ -17,6 +17,7 @@ def dispatch (line : String) : String :=
   | "lex" :: args => Driver.Expr.handleLex args
   | "parse" :: args => Driver.Expr.handleParse args
   | "sema" :: args => Driver.SemaD.handle args
+  | "tyop" :: args => Driver.SemaD.handleTyOp args
   | "lintsort" :: args => Driver.LintD.handleSort args
   | "relpath" :: args => Driver.LintD.handleRel args
   | "matcher" :: args => Driver.RenderD.handleMatcher args
